@@ -65,7 +65,7 @@ def variants_of(rng, v):
     """values easily confused with v"""
     out = [v]
     if v:
-        out.append(v.swapcase())
+        out.append("".join(c.swapcase() if c.isascii() else c for c in v))
         out.append(v.replace('"', "%22") if '"' in v else v + '"')
         out.append(v.replace("%", "%25") if "%" in v else "%" + v)
         out.append(v + ", " + v)
